@@ -188,6 +188,19 @@ var WorldAtoms = []WorldAtom{
 		ss[0].Sub = append(ss[0].Sub, "n1Changed: N1!", "tick: Int")
 		return ss
 	}, false},
+	{"upload-roots", func(ss []*SvcSpec) []*SvcSpec {
+		ss[0].Extra = append(ss[0].Extra, "scalar Upload", "input UpIn { f: Upload fs: [Upload] s: String }")
+		ss[0].Mut = append(ss[0].Mut, "upload(f: Upload): String", "uploadMany(fs: [Upload]): String", "uploadIn(in: UpIn): String")
+		if len(ss[0].Mut) == 3 {
+			ss[0].Mut = append(ss[0].Mut, "incr(by: Int!): Int!")
+		}
+		return ss
+	}, false},
+	{"upload-second-service", func(ss []*SvcSpec) []*SvcSpec {
+		ss[1].Extra = append(ss[1].Extra, "scalar Upload", "input UpIn { f: Upload fs: [Upload] s: String }")
+		ss[1].Mut = append(ss[1].Mut, "upload1(f: Upload): String", "plain1(s: String): String", "uploadIn1(in: UpIn): String")
+		return ss
+	}, false},
 	{"memberless-interface", func(ss []*SvcSpec) []*SvcSpec {
 		ss[1].addType("Lonely", "interface", "x: Int")
 		ss[1].Query = append(ss[1].Query, "lonely: Lonely")
